@@ -66,6 +66,7 @@ Inductive pc :=
   | IvLoad | IvCas                (* Counter.invalidate *)
   | RfLoad | RfCas                (* Counter.refresh *)
   | CClose                        (* previous.close() *)
+  | Crash                         (* nil pointer dereference in Counter.add *)
   | Done.
 
 Record thread := mkT {
@@ -133,8 +134,8 @@ Definition default_nops : nops := mkN 1 0.
 
 Definition goto_nops (t : thread) (k : nat) (after : pc) : thread :=
   match k with
-  | O => with_pc t after
-  | S k' => mkT (CNop k') (t_kind t) (t_st t) (t_amt t) (t_old t) (t_prev t) (t_tgt t) after
+  | O => with_pc t IvLoad
+  | S k' => with_pc t (CNop k')
   end.
 
 (* after releaseLock returns *)
@@ -187,7 +188,7 @@ Definition step_thread (np : nops) (s : shared) (t : thread) : shared * thread :
   | ACellLoad =>
       match s_ptr s with
       | Some g => (touch s g, with_old t ACellCas (cell_of s g))
-      | None => (s, with_pc t Done) (* unreachable: ptr is only cleared under the lock *)
+      | None => (s, with_pc t Crash) (* c.ptr.count is nil: proved unreachable *)
       end
   | ACellCas =>
       match s_ptr s with
@@ -196,7 +197,7 @@ Definition step_thread (np : nops) (s : shared) (t : thread) : shared * thread :
             let v := cell_add (t_old t) (t_amt t) in
             (set_sat (set_cell (touch s g) g v) (W64 <=? t_old t + t_amt t), with_pc t RCas)
           else (touch s g, with_pc t ACellLoad)
-      | None => (s, with_pc t Done)
+      | None => (s, with_pc t Crash)
       end
   | RCas =>
       let st := t_st t in
@@ -232,7 +233,7 @@ Definition step_thread (np : nops) (s : shared) (t : thread) : shared * thread :
   | LCellLoad =>
       match s_ptr s with
       | Some g => (touch s g, with_old t LCellCas (cell_of s g))
-      | None => (s, with_pc t LCas)
+      | None => (s, with_pc t Crash)
       end
   | LCellCas =>
       match s_ptr s with
@@ -241,7 +242,7 @@ Definition step_thread (np : nops) (s : shared) (t : thread) : shared * thread :
             let v := cell_add (t_old t) (t_amt t) in
             (set_sat (set_cell (touch s g) g v) (W64 <=? t_old t + t_amt t), with_amt t LCas (t_st t) 0)
           else (touch s g, with_pc t LCellLoad)
-      | None => (s, with_pc t LCas)
+      | None => (s, with_pc t Crash)
       end
   | CIdle => (s, with_pc t (match t_tgt t with SameFile => CPre | _ => CStore end))
   | CPre => (s, with_pc t CStore)
@@ -264,7 +265,7 @@ Definition step_thread (np : nops) (s : shared) (t : thread) : shared * thread :
            goto_nops t' (n_after_store_rotate np) IvLoad)
       end
   | CNop k =>
-      (s, match k with O => with_pc t (t_after t) | S k' => with_pc t (CNop k') end)
+      (s, match k with O => with_pc t IvLoad | S k' => with_pc t (CNop k') end)
   | IvLoad =>
       if w_have w then (s, with_st t IvCas w) else (s, with_st t RfLoad w)
   | IvCas =>
@@ -284,6 +285,7 @@ Definition step_thread (np : nops) (s : shared) (t : thread) : shared * thread :
            with_pc t Done)
       | None => (s, with_pc t Done)
       end
+  | Crash => (s, t)
   | Done => (s, t)
   end.
 
